@@ -235,6 +235,18 @@ pub fn run(ctx: &Ctx, rep: &mut Report) {
             if !alive {
                 break;
             }
+            if rng.chance(1, 6) {
+                let d = rng.ledger_jump();
+                if w.u.advance(d) {
+                    rep.step(format!("ledger advances by {}", d));
+                    rep.count("advance-ledger");
+                    if let Some(dd) = w.check_registry() {
+                        rep.violation("registry-changed-by-passing-time", dd);
+                        alive = false;
+                        continue;
+                    }
+                }
+            }
             let (sname, supply) = *rng.pick(&SUPPLIES);
             let mclass = *rng.pick(&MINTERS);
             let deployer = w.users[rng.usize(2)].clone();
@@ -590,6 +602,7 @@ pub fn run(ctx: &Ctx, rep: &mut Report) {
     req.push("inbound-probe-ok".into());
     req.push("op:deploy-unrepresentable-metadata".into());
     req.push("determinism-twin".into());
+    req.push("advance-ledger".into());
     rep.notes.insert("required".into(), json!(req));
     rep.notes.insert("n_recipe_agrees_with_documented_derivation".into(), json!(recipe_agree));
     rep.notes.insert("n_recipe_differs_from_documented_derivation".into(), json!(recipe_differ));
